@@ -26,6 +26,12 @@ Definition r_new := router_new lw rx_is_match rx_valid (cf_ic_host cfg) (cf_ic_p
 Fixpoint ins_sorted (x : N) (l : list N) : list N :=
   match l with [] => [x] | y :: l' => if N.leb x y then x :: l else y :: ins_sorted x l' end.
 Definition sortN (l : list N) : list N := fold_right ins_sorted [] l.
+(* the SET of tags of a sorted list (C17 compares sets of routes: a trace may list a route once per matching ip range) *)
+Fixpoint uniqN (l : list N) : list N :=
+  match l with
+  | x :: ((y :: _) as l') => if N.eqb x y then uniqN l' else x :: uniqN l'
+  | _ => l
+  end.
 
 (* priorities are <= 0 (0 - rank): encode option priority as N: 0 = None, 1 + (-p) otherwise *)
 Definition pcode (o : option route) : N := match o with None => 0%N | Some r => (1 + Z.to_N (- rt_priority r))%N end.
@@ -38,7 +44,7 @@ Definition observe (with_trace : bool) (Rt : R) (rc : N) (probes : list request)
        sortN (map rt_tag (r_match q Rt))
        :: (if with_trace then
              let tr := traces_routes (r_trace q Rt) in
-             [sortN (map rt_tag tr); [pcode (best_route tr); pcode (r_get q Rt)]]
+             [uniqN (sortN (map rt_tag tr)); [pcode (best_route tr); pcode (r_get q Rt)]]
            else [])) probes.
 
 Fixpoint apply_ops (Rt : R) (ops : list rop) : R :=
